@@ -1,14 +1,15 @@
 SPECIFICATION Spec
 CONSTANTS
- MaxP = 47
- MaxQ = 23
+ MaxP = 31
+ MaxQ = 15
  MaxK = 7
  Margin = 4
- Variants <- A_com1
+ Variants <- A_com1q
  NaiveMaxP = 7
  NaiveVariants <- D_com1
+ AccMaxP = 1000
  NbrMaxP = 31
- NbrVariants <- N_com1
+ NbrVariants <- A_com1q
  Mode = "nbr"
  CheckArith = FALSE
  SortedBases = TRUE
